@@ -13,6 +13,7 @@ Structure (as harness/c19.py):
   replay(ctx, v)    re-execute one recorded violation exactly
 """
 import ast
+import contextlib
 import io
 import os
 
@@ -45,16 +46,21 @@ RULE = ("cases come from one PRNG seeded by VERIF_SEED plus fixed catalogues: Si
         "buidl/test/test_compactfilter.py. A case is non-trivial when its input is not empty; distinct = distinct "
         "(operation, input) pairs")
 CLAUSES = {
-    "SipHash-2-4 (every key, every message length)": "proved (siphash_eq_spec, siphash_none)",
-    "range mapping (hash * F) >> 64, F = N*M": "proved (encodeGcs_eq_spec)",
-    "Golomb-Rice P=19 coding, bit packing = BIP158 byte for byte": "proved (encodeGolomb_eq_spec, packBits_eq_spec, encodeGcs_eq_spec)",
-    "decoding inverts encoding": "proved (decodeGolomb_encodeGolomb, unpackBits_packBits, decodeGcs_serializeGcs, decodeGcs_encodeGcs)",
-    "compact filter: no false negatives": "proved for the repaired code (compact_no_false_negatives, compact_parse_serialize); F18a fixed",
-    "filter headers chain as hash256(filter hash || previous header)": "proved relative to hash (cfheaders_fold)",
-    "MurmurHash3 (every message length, every seed)": "proved (murmur3_eq_spec)",
-    "bloom filter: positions = murmur3(item, i*0xFBA4C795 + tweak) mod 8*size": "proved (bloom_position_eq_spec)",
-    "bloom filter: no false negatives": "proved (bloom_no_false_negatives: invariant over the add history)",
-    "filterload serialisation": "model = byte layout of BIP37; tied to the code by correspondence (bloom_filterload_layout)",
+    "SipHash-2-4 (every 16-byte key, every message length)": "proved (siphash_eq_spec, siphash_key_length)",
+    "construction: N = number of items, F = N*M, values (siphash * F) >> 64 sorted, deltas Golomb-Rice P=19, bit packing = BIP158 byte for byte":
+        "proved (encode_gcs_eq_bip158, golomb_eq_bip158, pack_eq_bip158); BIP158 takes a set: the caller removes duplicate items",
+    "decoding inverts encoding":
+        "proved (golomb_roundtrip, golomb_truncated, unpack_pack, pack_unpack, gcs_roundtrip, gcs_domain, decode_encode_gcs)",
+    "compact filter: every inserted element is reported present, for every key and element set":
+        "proved for the code after fix F18a (compact_no_false_negatives, compact_parse_serialize, compact_parse_received); "
+        "behaviour before the fix: F18a_witness",
+    "filter headers chain as double-SHA256(filter hash || previous header)": "proved relative to hash (filter_header_chain, filter_header_step)",
+    "MurmurHash3_x86_32 (every message length / tail length, every seed)": "proved (murmur3_eq_spec)",
+    "bloom filter bit positions = MurmurHash3 with seed i*0xFBA4C795 + tweak modulo the filter size": "proved (bloom_position_eq_spec)",
+    "bloom filter: every inserted element is reported present, for every tweak, size, function count":
+        "proved as an invariant over the add history (bloom_no_false_negatives, bloom_add_mono, bloom_add_params, bloom_add_total, "
+        "bloom_filter_bytes)",
+    "filterload serialisation": "proved layout (bloom_filterload_layout) — a near-restatement of the model; tied to the code by correspondence",
 }
 TRUSTED = ["hash256 is a parameter of the header-chain theorem; the driver instantiates it with Buidl.Model.Hash.SHA256",
            "Python `sorted` on ints is modelled by List.mergeSort (validated by the correspondence run)"]
@@ -239,7 +245,8 @@ def p_bip158_vector(c):
     import buidl.helper as H
     from buidl.block import Block
     key = bytes.fromhex(c["block_hash"])[::-1][:16]
-    b = Block.parse(io.BytesIO(bytes.fromhex(c["block"])))
+    with contextlib.redirect_stdout(io.StringIO()):   # Script.parse prints a diagnostic for coinbase scripts
+        b = Block.parse(io.BytesIO(bytes.fromhex(c["block"])))
     items = H.filter_null([bytes.fromhex(s) for s in c["scripts"]] + [i for i in b.get_outpoints()])
     fb = CF.encode_gcs(key, items)
     hdr = H.hash256(H.hash256(fb) + bytes.fromhex(c["prev"])[::-1])[::-1]
@@ -252,8 +259,9 @@ PREDICATES = {"cf_no_false_negative": p_cf_no_false_negative, "gcs_roundtrip": p
               "bip158_vector": p_bip158_vector}
 
 
-def eval_pred(kc):
-    kind, case = kc
+def eval_pred(kind, case=None):
+    if case is None:
+        kind, case = kind
     try:
         return PREDICATES[kind](case)
     except Exception as e:
@@ -428,7 +436,8 @@ def run(ctx):
     for v in vectors:
         preds.append(("bip158_vector", v))
         key = bytes.fromhex(v["block_hash"])[::-1][:16]
-        b = Block.parse(io.BytesIO(bytes.fromhex(v["block"])))
+        with contextlib.redirect_stdout(io.StringIO()):
+            b = Block.parse(io.BytesIO(bytes.fromhex(v["block"])))
         items = H.filter_null([bytes.fromhex(s) for s in v["scripts"]] + [i for i in b.get_outpoints()])
         fb = bytes.fromhex(v["filter"])
         lines.append(("gcs_spec:vector", (f"gcs_spec {xb(key)} {blist(items)}", xb(fb))))
@@ -508,6 +517,7 @@ def run(ctx):
     results = pmap(eval_pred, preds, workers=ctx.workers, chunksize=8)
     _dbg(ctx, f"{len(preds)} predicates evaluated")
     for (kind, case), (ok, got, want) in zip(preds, results):
+        rec.cov_pred(kind, case)
         if ok:
             rec.ok(kind, repr(case)[:300])
             rec.sample(kind, {k: (v if len(repr(v)) < 300 else repr(v)[:300]) for k, v in case.items()}, limit=1)
